@@ -85,6 +85,9 @@ func locate(nf *hcl.File, pos int) string {
 		}
 		for _, bl := range b.Blocks {
 			if pos >= bl.TypeRange.End.Byte && pos < bl.OpenBraceRange.Start.Byte {
+				if len(bl.LabelRanges) > 0 && pos < bl.LabelRanges[0].Start.Byte {
+					return "in-block-header-before-first-label"
+				}
 				return "in-block-header"
 			}
 			if pos > bl.OpenBraceRange.Start.Byte && pos < bl.CloseBraceRange.Start.Byte {
@@ -215,7 +218,9 @@ func checkFormatted(label string, src []byte, toks []ltok, nf *hcl.File, out []b
 		}
 	}
 	for _, v := range verb {
-		if bytes.Count(src, []byte(v)) != bytes.Count(out, []byte(v)) {
+		// (only texts that occur exactly once in the input: then that occurrence is the
+		// literal itself and not some other place that happens to spell the same)
+		if bytes.Count(src, []byte(v)) == 1 && bytes.Count(out, []byte(v)) != 1 {
 			kind := "string"
 			switch {
 			case strings.HasPrefix(v, "#") || strings.HasPrefix(v, "/"):
